@@ -7,7 +7,7 @@ MODEL = {"quick": dict(MaxN=3, MaxCells=4, MaxC=1, MaxK=2, RD=2, Forms='{"stable
          "thorough": dict(MaxN=3, MaxCells=6, MaxC=2, MaxK=2, RD=2, Forms='{"stable"}')}
 NAIVE = dict(MaxN=2, MaxCells=2, MaxC=1, MaxK=2, RD=2, Forms='{"naive"}')
 STICKY = dict(MaxN=2, MaxCells=2, MaxC=1, MaxK=2, RD=2, Forms='{"stable", "sticky"}')
-INVS = ["InvExact", "InvRegPD", "InvSylvester", "InvModel", "InvK1", "InvFailed", "InvRow", "InvSensitive", "InvPd3", "InvBudget"]
+INVS = ["InvExact", "InvRegPD", "InvSylvester", "InvModel", "InvK1", "InvFailed", "InvRow", "InvSensitive", "InvPd3", "InvBudget", "InvConvClause"]
 ACTIONS = ["ChooseCfg", "ChooseData", "MEmpty", "MSingular", "MStep", "Query"]
 # (B) generator
 GEN = {"quick": dict(Tier='"quick"', Thin=7), "thorough": dict(Tier='"thorough"', Thin=7)}
@@ -103,9 +103,19 @@ def run(ctx):
     cases = vlib.tlc_gen(ctx, "Gen_Gmm", {"constants": GEN[ctx.tier], "invariants": ["Emit"]})
     if not ctx.quick:
         cases += random_cases(ctx, 2000)
+    # the lower-bound trajectory is observable only if the tree carries the `gmm.iter` hook
+    hook = False
+    try:
+        with open(os.path.join(vlib.REPO, "algorithms/linfa-clustering/src/gaussian_mixture/algorithm.rs")) as f:
+            hook = "gmm.iter" in f.read()
+    except OSError:
+        pass
+    for c in cases:
+        c["inp"]["hook"] = hook
+    ctx.extra["lower_bound_hook_gmm_iter"] = "present" if hook else "absent: the convergence-test clause is not evaluated"
     vlib.number(cases)
     ctx.cases = len(cases)
-    traces = vlib.run_harness(ctx, binp, cases)
+    traces = vlib.run_harness(ctx, binp, cases, env={"LINFA_VERIF_STEPS": "1"})
     ok_fits = [t for t in traces if fitted(t)]
     errs = {}
     for t in traces:
@@ -153,7 +163,7 @@ def run(ctx):
 
 def replay(ctx, case):
     binp = vlib.cargo_build("c10")
-    traces = vlib.run_harness(ctx, binp, [case])
+    traces = vlib.run_harness(ctx, binp, [case], env={"LINFA_VERIF_STEPS": "1"})
     ctx.cases = 1
     vlib.validate_with_findings(ctx, "Trace_Gmm", traces, constants=TRACE_CONST)
     return vlib.finish(ctx)
